@@ -20,12 +20,19 @@ rule("C14.h", "a grid given to a wrapper (scaled / structured / linked asset) re
               "so that restoring the full grid after a split optimisation also restores the wrapped assets", floor=2, props=["C14", "C10"])
 rule("C15.k", "split set-up with a fixed window: each interval is given the part of the previous solution (and of an index mask) that "
               "belongs to it, not the caller's full-length data unchanged (the interval set-up reads x[0:n_vars])", floor=1)
+rule("C15.m", "split set-up: once the steps of an interval grid have been renumbered 0..T-1, nothing of the whole horizon (masks, step lists, "
+              "records) is selected with the renumbered steps - only with the copy of the original steps taken before (here: the window "
+              "handed to the interval)", floor=2)
+rule("C14.j", "split set-up: the steps and nodal records of an interval are translated back with the copy of the original steps taken before "
+              "the interval grid was renumbered 0..T-1, never with the renumbered steps", floor=2)
+rule("C14.k", "split set-up: the mapping that is re-based (original steps, index shift, asset index shift) is a copy - the mapping of the "
+              "interval problem itself, whose index tells optimize() which variables are boolean, stays as the interval set-up made it", floor=2)
 rule("C14.f", "interval boundaries are consecutive pairs of one sequence extended to start at grid start and end at grid end", floor=3)
 rule("C18.c", "time steps and nodal records of an interval are re-based through the same array of original steps; records and "
               "duals are concatenated in interval order", floor=3, props=["C18", "C14"])
 
 
-@analysis("split", ["C04.d", "C14.c", "C14.f", "C18.c", "C14.h", "C15.k"])
+@analysis("split", ["C04.d", "C14.c", "C14.f", "C18.c", "C14.h", "C15.k", "C15.m", "C14.j", "C14.k"])
 def run(ctx):
     p = ctx.p
     fn = p.cls("Portfolio").methods.get("setup_split_optim_problem")
@@ -209,6 +216,76 @@ def run(ctx):
                    "must be equal to length of time grid'; 72 steps outside, 24 inside)" % (
                        ci.name, w_attr, (st_m.qualname if st_m is not None else "set_timegrid")), node=ci.node)
     ctx.require(n_w >= 2, "fewer than 2 wrapper classes found", rules=['C14.h'])
+
+    # ================================================================= C14.k the re-based mapping is a copy
+    ffk = ctx.flow(fn)
+    for s0 in body:
+        tgt = None
+        if isinstance(s0, ast.Assign) and len(s0.targets) == 1 and isinstance(s0.targets[0], ast.Subscript):
+            tgt = s0.targets[0]
+        elif isinstance(s0, ast.AugAssign) and isinstance(s0.target, (ast.Subscript, ast.Attribute)):
+            tgt = s0.target
+        if tgt is None:
+            continue
+        base = tgt
+        while isinstance(base, (ast.Subscript, ast.Attribute)):
+            base = base.value
+        if not isinstance(base, ast.Name):
+            continue
+        defs = [d for d in ffk.defs(base.id, s0) if d.kind == "assign" and d.value is not None]
+        # only frames that come from an interval problem's mapping (directly or through a copy)
+        def from_mapping(v):
+            return any(isinstance(x, ast.Attribute) and x.attr == "mapping" for x in au.walk_local(v))
+        defs = [d for d in defs if from_mapping(d.value)]
+        if not defs:
+            continue
+        alias = [d for d in defs if not any(isinstance(x, ast.Call) and au.method_name(x) in ("deepcopy", "copy") for x in au.walk_local(d.value))]
+        ctx.ob("C14.k", fn, au.short(s0, 70), not alias,
+               "%s is the mapping of the interval problem itself (%s), not a copy: re-basing it moves the index of the problem that is optimised "
+               "for this interval - from the second interval on optimize() looks for the boolean variables at labels shifted by the number of "
+               "variables before (a plant with minimum load runs below it, or optimize() raises)" % (
+                   base.id, au.short(alias[0].node, 50) if alias else ""), node=s0, ok_detail="re-bases a copy")
+
+    # ================================================================= C15.m original steps vs renumbered steps
+    renum = [s0 for s0 in main.body if isinstance(s0, ast.Assign) and len(s0.targets) == 1 and isinstance(s0.targets[0], ast.Attribute)
+             and s0.targets[0].attr == "I" and isinstance(s0.targets[0].value, ast.Name)]
+    for rid in (() if renum else ("C15.m", "C14.j")):
+        ctx.ob(rid, fn, "renumbering of the interval grid", None, "the interval loop no longer renumbers <grid>.I: the rule has nothing to decide")
+    for rn in renum:
+        g = rn.targets[0].value.id
+        origs = {s0.targets[0].id for s0 in main.body if isinstance(s0, ast.Assign) and len(s0.targets) == 1 and isinstance(s0.targets[0], ast.Name)
+                 and au.U(s0.value) == "%s.I" % g and s0.lineno < rn.lineno}
+        n_use = 0
+        for s0 in body:
+            if s0.lineno <= rn.lineno:
+                continue
+            for x in au.walk_own(s0):
+                sel = None
+                if isinstance(x, ast.Subscript) and isinstance(x.ctx, ast.Load):
+                    sel = x.slice
+                    whole = x.value
+                elif isinstance(x, ast.Call) and au.method_name(x) in ("isin", "in1d", "intersect1d", "searchsorted") and x.args:
+                    sel = x.args[0]
+                    whole = x.args[1] if len(x.args) > 1 else x
+                if sel is None:
+                    continue
+                rid = "C15.m" if any(isinstance(a0, ast.If) and "fix_time_window" in au.names_in(a0.test) for a0 in p.ancestors(x)) else "C14.j"
+                local = any(isinstance(y, ast.Attribute) and y.attr == "I" and isinstance(y.value, ast.Name) and y.value.id == g for y in au.walk_local(sel))
+                orig = any(isinstance(y, ast.Name) and y.id in origs for y in au.walk_local(sel)) or \
+                    (isinstance(x, ast.Subscript) and isinstance(x.value, ast.Name) and x.value.id in origs)
+                if local:
+                    n_use += 1
+                    ctx.ob(rid, fn, au.short(x, 70), False,
+                           "%s.I was renumbered to 0..T-1 at line %d; selecting from %s with it takes the *first* T entries in every interval, not the "
+                           "entries of this interval's steps (a boolean mask over the grid as fix_time_window['I']: with the first 30 hours fixed, "
+                           "days 2 and 3 are pinned completely) - the original steps are kept in %s" % (g, rn.lineno, au.short(whole, 30), sorted(origs) or "?"),
+                           node=x)
+                elif orig:
+                    n_use += 1
+                    ctx.ob(rid, fn, au.short(x, 70), True, node=x, ok_detail="selected with / from the original steps %s" % sorted(origs))
+        if not origs:
+            for rid in ("C15.m", "C14.j"):
+                ctx.ob(rid, fn, "copy of the original steps", None, "no copy of %s.I is taken before the renumbering" % g, node=rn)
 
     # ================================================================= C15.k the window handed to an interval
     calls = [c for s0 in au.walk_stmts(main.body) for c in au.walk_own(s0) if isinstance(c, ast.Call) and au.method_name(c) == "setup_optim_problem"]
